@@ -203,6 +203,17 @@ class ScrubRec:
         self.any("sync at %d -> rc %d" % (self.a.clock - BASE_TIME, r.rc))
         return r
 
+    def sync_partial(self):
+        """a sync that covers only the first stripes (-B): the rest keeps deleted blocks whose data is still in the parity and
+        new blocks without parity (an interrupted sync looks the same)"""
+        rng = self.rng
+        self.a.clock += rng.choice([8, 3600, DAY])
+        n = rng.randint(1, 2)
+        r = self.a.run("sync", "-B", str(n))
+        self.any("sync -B %d at %d -> rc %d" % (n, self.a.clock - BASE_TIME, r.rc))
+        self.kinds.add("partial-sync")
+        return r
+
     def delete_file(self, spare_ok=False):
         rng = self.rng
         d = rng.randrange(self.conf.nd)
@@ -357,7 +368,8 @@ class ScrubRec:
             elif x < 0.83:
                 self.change_file()
             elif x < 0.86:
-                self.delete_file()
+                if self.delete_file() and rng.random() < 0.6:
+                    self.sync_partial()
             elif x < 0.93:
                 self.add_files()
                 self.sync()
@@ -380,6 +392,24 @@ class ScrubRec:
         self.scrub("bad")
         self.scrub("bad")
         self.scrub("pct", 100, 0)
+
+    def directed_deleted_partial(self):
+        """stripes that still hold the parity of a deleted file (and stripes of new files without parity) after a sync that
+        did not reach them: every plan reports their differences as expected errors and never marks them"""
+        rng = self.rng
+        self.build()
+        self.add_files(3)
+        self.sync(dt=DAY)
+        for _ in range(rng.randint(1, 2)):
+            self.delete_file()
+        if rng.random() < 0.5:
+            self.add_files(1)
+        self.sync_partial()
+        self.scrub("full")
+        self.scrub("pct", 100, 0)
+        self.scrub("bad")
+        self.sync(dt=DAY)
+        self.scrub("full")
 
     def directed_unsynced(self):
         """differences on stripes of files changed since the last sync are reported but never marked, whether the
@@ -416,6 +446,8 @@ def _scenario(job):
             g.directed_bad_cycle()
         elif kind == "unsynced":
             g.directed_unsynced()
+        elif kind == "deleted-partial":
+            g.directed_deleted_partial()
         else:
             g.random_history(nsteps)
         return {"seed": seed, "nd": nd, "np": np_, "kind": kind, "nsteps": nsteps, "lines": g.lines, "vlen": g.rec.vlen,
@@ -553,7 +585,7 @@ def binding_part(v, tier, cov):
     nrand, nsteps, ndir = (48, 14, 12) if quick else (260, 22, 48)
     for i in range(ndir):
         nd, np_ = shapes[i % len(shapes)]
-        jobs.append((s0 + 500 + i, nd, np_, "bad-cycle" if i % 2 == 0 else "unsynced", 0, None))
+        jobs.append((s0 + 500 + i, nd, np_, ("bad-cycle", "unsynced", "deleted-partial")[i % 3], 0, None))
     for i in range(nrand):
         nd, np_ = shapes[i % len(shapes)]
         jobs.append((s0 + 1000 + i, nd, np_, "random", nsteps, None))
